@@ -841,6 +841,39 @@ theorem applyAsyncCross_ne_valueError (bs : List Bound) (r : Val) :
       | some v => exact ih _
 end Aux
 
+section Aux
+theorem applyAsyncCross_ne_attributeError (bs : List Bound) (r : Val) :
+    applyAsyncCross bs r ≠ .error .attributeError := by
+  induction bs generalizing r with
+  | nil => simp [applyAsyncCross]
+  | cons b bs ih =>
+    simp only [applyAsyncCross, ctorStep]
+    cases b.1.ctor with
+    | none => simp
+    | some n =>
+      cases b.2 with
+      | none => exact ih r
+      | some v => exact ih _
+
+theorem rawAny_noargs (asy : Bool) (bs : List Bound) (h : ∀ b ∈ bs, b.2 = none) :
+    bs.any (rawAssignFails asy) = false := by
+  simp only [List.any_eq_false]
+  intro b hb
+  simp [rawAssignFails, given, h b hb]
+
+theorem rawAssignFails_async_sync (b : Bound) (h : rawAssignFails false b = false) :
+    rawAssignFails true b = false := by
+  unfold rawAssignFails at h ⊢
+  cases hg : given b.2 <;> cases hr : b.1.rawOwner <;> cases hp : b.1.repeated <;> cases hv : b.1.isValue <;>
+    cases hm : b.1.isMsg <;> simp [hg, hr, hp, hv, hm] at h ⊢
+
+theorem rawAny_async_sync (bs : List Bound) (h : bs.any (rawAssignFails false) = false) :
+    bs.any (rawAssignFails true) = false := by
+  simp only [List.any_eq_false] at h ⊢
+  intro b hb
+  simpa using rawAssignFails_async_sync b (by simpa using h b hb)
+end Aux
+
 /-- and ValueError for the exclusion reason is raised ONLY then. -/
 theorem value_error_iff_mixed (samePkg asy : Bool) (req : ReqArg) (bs : List Bound) :
     call samePkg asy req bs = .error .valueError ↔ (req.isGiven = true ∧ hasFlattened bs = true) := by
@@ -850,16 +883,40 @@ theorem value_error_iff_mixed (samePkg asy : Bool) (req : ReqArg) (bs : List Bou
     · simpa using hm
     · exfalso
       simp only [call, hm, Bool.false_eq_true, if_false] at h
-      cases samePkg <;> cases asy <;> cases req <;> simp at h
-      exact applyAsyncCross_ne_valueError bs .mnil h
+      split at h
+      · simp at h
+      · cases samePkg <;> cases asy <;> cases req <;> simp at h
+        exact applyAsyncCross_ne_valueError bs .mnil h
   · rintro ⟨h1, h2⟩
     simp [call, h1, h2]
 
+/-- **AttributeError is raised exactly when** the call is not mixed, the request is of the API's own
+package, and some GIVEN key ends in a field owned by a raw protobuf message that protobuf refuses to
+assign (`rawAssignFails`: repeated/map for the sync client, a singular message for both). -/
+theorem attribute_error_iff (samePkg asy : Bool) (req : ReqArg) (bs : List Bound) :
+    call samePkg asy req bs = .error .attributeError ↔
+      ((req.isGiven && hasFlattened bs) = false ∧ samePkg = true ∧ bs.any (rawAssignFails asy) = true) := by
+  constructor
+  · intro h
+    by_cases hm : (req.isGiven && hasFlattened bs) = true
+    · simp [call, hm] at h
+    · simp only [call, hm, Bool.false_eq_true, if_false] at h
+      by_cases hr : (samePkg && bs.any (rawAssignFails asy)) = true
+      · simp only [Bool.and_eq_true] at hr
+        exact ⟨by simpa using hm, hr.1, hr.2⟩
+      · exfalso
+        simp only [hr, Bool.false_eq_true, if_false] at h
+        cases samePkg <;> cases asy <;> cases req <;> simp at h
+        exact applyAsyncCross_ne_attributeError bs .mnil h
+  · rintro ⟨h1, h2, h3⟩
+    simp [call, h1, h2, h3]
+
 /-- **kwargs call ≡ request call** (same package, both clients): calling with flattened arguments
 sends exactly what is sent when the caller builds the request by setting those fields and passes
-it as `request` (object or dict). -/
+it as `request` (object or dict) — provided no given key runs into protobuf's assignment rules for
+raw sub-messages (`rawAssignFails`; FORCED, see `raw_owner_repeated_counterexample`). -/
 theorem kwargs_equiv_request (asy : Bool) (bs : List Bound)
-    (hg : ∀ b ∈ bs, good b = true) (hpf : PrefixFree bs) :
+    (hg : ∀ b ∈ bs, good b = true) (hpf : PrefixFree bs) (hraw : bs.any (rawAssignFails asy) = false) :
     call true asy .none bs = .ok (setAll bs .mnil) ∧
     call true asy (.inst (setAll bs .mnil)) (bs.map fun b => (b.1, none)) = .ok (setAll bs .mnil) ∧
     call true asy (.dict (setAll bs .mnil)) (bs.map fun b => (b.1, none)) = .ok (setAll bs .mnil) := by
@@ -867,16 +924,17 @@ theorem kwargs_equiv_request (asy : Bool) (bs : List Bound)
     intro b hb; obtain ⟨c, _, rfl⟩ := List.mem_map.mp hb; rfl
   have hnf : hasFlattened (bs.map fun b : Bound => ((b.1, none) : Bound)) = false := by
     simp [hasFlattened, given]
+  have hnr := rawAny_noargs asy _ hno
   have hu := unset_mnil bs hg
   cases asy
   · refine ⟨?_, ?_, ?_⟩
-    · simp [call, ReqArg.isGiven, apply_sync_eq_set true bs .mnil hg hpf hu]
-    · simp [call, hnf]
-    · simp [call, hnf, applySync_noargs true _ _ hno]
+    · simp [call, ReqArg.isGiven, hraw, apply_sync_eq_set true bs .mnil hg hpf hu]
+    · simp [call, hnf, hnr]
+    · simp [call, hnf, hnr, applySync_noargs true _ _ hno]
   · refine ⟨?_, ?_, ?_⟩
-    · simp [call, ReqArg.isGiven, apply_async_eq_set bs .mnil hg hpf hu]
-    · simp [call, hnf, applyAsyncSame_noargs _ _ hno]
-    · simp [call, hnf, applyAsyncSame_noargs _ _ hno]
+    · simp [call, ReqArg.isGiven, hraw, apply_async_eq_set bs .mnil hg hpf hu]
+    · simp [call, hnf, hnr, applyAsyncSame_noargs _ _ hno]
+    · simp [call, hnf, hnr, applyAsyncSame_noargs _ _ hno]
 
 /-- the same for a dependency-package request (sync: two passes; asyncio: the pb2 constructor). -/
 theorem kwargs_equiv_request_cross (asy : Bool) (bs : List Bound)
@@ -891,32 +949,46 @@ theorem kwargs_equiv_request_cross (asy : Bool) (bs : List Bound)
   · exact ⟨by simp [call, ReqArg.isGiven, apply_async_cross_eq_set bs .mnil (hc rfl)], by simp [call, hnf]⟩
 
 /-- **Sync and asyncio clients behave identically**: same request or same exception, for every form
-of `request` and every argument list within the hypotheses. -/
+of `request` and every argument list within the hypotheses (the raw-assignment hypothesis is stated
+for the sync client: whatever the asyncio client refuses, the sync client refuses too). -/
 theorem sync_async_agree (samePkg : Bool) (req : ReqArg) (bs : List Bound)
     (hg : ∀ b ∈ bs, good b = true) (hpf : PrefixFree bs)
-    (hc : samePkg = false → ∀ b ∈ bs, ctorOk b = true) :
+    (hc : samePkg = false → ∀ b ∈ bs, ctorOk b = true)
+    (hraw : samePkg = true → bs.any (rawAssignFails false) = false) :
     call samePkg false req bs = call samePkg true req bs := by
   by_cases hm : (req.isGiven && hasFlattened bs) = true
   · simp [call, hm]
   · have hu := unset_mnil bs hg
-    cases req with
-    | none =>
-      cases samePkg
-      · simp [call, ReqArg.isGiven, apply_sync_eq_set false bs .mnil hg hpf hu,
+    cases samePkg
+    · cases req with
+      | none =>
+        simp [call, ReqArg.isGiven, apply_sync_eq_set false bs .mnil hg hpf hu,
               apply_async_cross_eq_set bs .mnil (hc rfl)]
-      · simp [call, ReqArg.isGiven, apply_sync_eq_set true bs .mnil hg hpf hu,
+      | inst r =>
+        have hf : hasFlattened bs = false := by simpa [ReqArg.isGiven] using hm
+        simp [call, hf]
+      | dict r =>
+        have hf : hasFlattened bs = false := by simpa [ReqArg.isGiven] using hm
+        simp [call, hf]
+    · have hs := hraw rfl
+      have ha := rawAny_async_sync bs hs
+      cases req with
+      | none =>
+        simp [call, ReqArg.isGiven, hs, ha, apply_sync_eq_set true bs .mnil hg hpf hu,
               apply_async_eq_set bs .mnil hg hpf hu]
-    | inst r =>
-      have hf : hasFlattened bs = false := by simpa [ReqArg.isGiven] using hm
-      cases samePkg
-      · simp [call, hf]
-      · simp [call, hf, applyAsyncSame_noargs bs r (hasFlattened_false hf)]
-    | dict r =>
-      have hf : hasFlattened bs = false := by simpa [ReqArg.isGiven] using hm
-      cases samePkg
-      · simp [call, hf]
-      · simp [call, hf, applyAsyncSame_noargs bs r (hasFlattened_false hf),
+      | inst r =>
+        have hf : hasFlattened bs = false := by simpa [ReqArg.isGiven] using hm
+        simp [call, hf, hs, ha, applyAsyncSame_noargs bs r (hasFlattened_false hf)]
+      | dict r =>
+        have hf : hasFlattened bs = false := by simpa [ReqArg.isGiven] using hm
+        simp [call, hf, hs, ha, applyAsyncSame_noargs bs r (hasFlattened_false hf),
               applySync_noargs true bs r (hasFlattened_false hf)]
+
+/-- without ANY hypothesis on the keys: whenever the asyncio client of a same-package request gets
+through protobuf's assignment rules… the sync client may still not (`raw_owner_repeated_counterexample`);
+the converse holds: what the sync client may assign, the asyncio client may too. -/
+theorem async_raw_ok_of_sync (bs : List Bound) (h : bs.any (rawAssignFails false) = false) :
+    bs.any (rawAssignFails true) = false := rawAny_async_sync bs h
 
 
 /-! ## 4. The rendered attribute path -/
@@ -1056,12 +1128,12 @@ theorem cross_reserved_counterexample :
     fieldsMappingP exSchema true exDep [["type"]] = .error (.keyError "type_") := by decide
 
 /-- slots of `parent`, `book`, `book.inner.marks` (repeated), `tags` (repeated), `labels` (map) -/
-def sParent : Slot := ⟨[1], false, false, false, some 1⟩
-def sBook : Slot := ⟨[2], false, false, false, some 2⟩
-def sMarks : Slot := ⟨[2, 5, 7], true, false, false, none⟩
-def sTitle : Slot := ⟨[2, 5, 4], false, false, false, some 4⟩
-def sTags : Slot := ⟨[4], true, false, false, some 4⟩
-def sLabels : Slot := ⟨[5], true, true, false, some 5⟩
+def sParent : Slot := ⟨[1], false, false, false, some 1, false, false⟩
+def sBook : Slot := ⟨[2], false, false, false, some 2, false, false⟩
+def sMarks : Slot := ⟨[2, 5, 7], true, false, false, none, false, false⟩
+def sTitle : Slot := ⟨[2, 5, 4], false, false, false, some 4, false, false⟩
+def sTags : Slot := ⟨[4], true, false, false, some 4, false, false⟩
+def sLabels : Slot := ⟨[5], true, true, false, some 5, false, false⟩
 
 /-- the hypotheses of the equivalence theorems hold on a non-trivial argument list (dotted key,
 list, map, a falsy list for a top-level key, an argument left out) and the result is what one expects -/
@@ -1082,7 +1154,7 @@ example : call true false (.inst .mnil) [(sParent, some (.atom ""))] = .error .v
 /-- **dependency-package request + dotted key** (`SetIamPolicyRequest`, "resource,policy.version"):
 the sync client assigns along the path, the asyncio client passes the terminal name to the pb2
 constructor — which has no such top-level field, even when the argument is `None`. -/
-def exCross : List Bound := [(⟨[1], false, false, false, some 1⟩, some (.atom "r")), (⟨[2, 1], false, false, false, none⟩, none)]
+def exCross : List Bound := [(⟨[1], false, false, false, some 1, true, false⟩, some (.atom "r")), (⟨[2, 1], false, false, false, none, true, false⟩, none)]
 theorem async_cross_dotted_counterexample :
     call false false .none exCross = .ok (.mcons 1 (.atom "r") .mnil) ∧
     call false true .none exCross = .error .ctorUnknownField := by decide
@@ -1099,5 +1171,40 @@ present, the asyncio client skips it. -/
 theorem falsy_dotted_counterexample :
     call true false .none [(sMarks, some (.list []))] = .ok (.mcons 2 (.mcons 5 .mnil .mnil) .mnil) ∧
     call true true .none [(sMarks, some (.list []))] = .ok .mnil := by decide
+
+/-- slots of `mask.paths` (repeated, owner `google.protobuf.FieldMask` — a raw protobuf class) and of
+`op.error` (singular message, owner `google.longrunning.Operation`) inside a same-package request -/
+def sMaskPaths : Slot := ⟨[6, 1], true, false, false, none, true, false⟩
+def sOpError : Slot := ⟨[7, 4], false, false, false, none, true, true⟩
+def sStatusCode : Slot := ⟨[8, 1], false, false, false, none, true, false⟩
+
+/-- **a repeated field of a raw sub-message** (`update_mask.paths`, `status.details`, `policy.bindings`):
+the sync client executes `request.mask.paths = paths` — protobuf refuses (AttributeError, nothing is
+sent) — the asyncio client executes `request.mask.paths.extend(paths)` and sends the request. -/
+theorem raw_owner_repeated_counterexample :
+    call true false .none [(sMaskPaths, some (.list ["a", "b"]))] = .error .attributeError ∧
+    call true true .none [(sMaskPaths, some (.list ["a", "b"]))] =
+      .ok (.mcons 6 (.mcons 1 (.list ["a", "b"]) .mnil) .mnil) := by decide
+
+/-- **a message field of a raw sub-message** (`op.error`): `request.op.error = error` is refused by
+protobuf in BOTH clients; the request call with the same field set goes through. -/
+theorem raw_owner_message_counterexample :
+    call true false .none [(sOpError, some (.mcons 1 (.atom "3") .mnil))] = .error .attributeError ∧
+    call true true .none [(sOpError, some (.mcons 1 (.atom "3") .mnil))] = .error .attributeError ∧
+    call true true (.inst (.mcons 7 (.mcons 4 (.mcons 1 (.atom "3") .mnil) .mnil) .mnil)) [(sOpError, none)] =
+      .ok (.mcons 7 (.mcons 4 (.mcons 1 (.atom "3") .mnil) .mnil) .mnil) := by decide
+
+/-- a SCALAR of a raw sub-message (`status.code`) is fine in both clients: the hypotheses of
+`sync_async_agree` / `kwargs_equiv_request` are met by a key with a raw owner -/
+example : [(sStatusCode, some (.atom "5"))].any (rawAssignFails false) = false ∧
+    call true false .none [(sStatusCode, some (.atom "5"))] = .ok (.mcons 8 (.mcons 1 (.atom "5") .mnil) .mnil) ∧
+    call true true .none [(sStatusCode, some (.atom "5"))] = .ok (.mcons 8 (.mcons 1 (.atom "5") .mnil) .mnil) := by decide
+
+/-- a client-streaming method offers no flattened parameter whatever its signatures say -/
+example : (match fieldsMappingP exSchema false exReq [["parent"], ["tags"]] with
+    | .ok es => (paramListOf true es, paramListOf false es)
+    | .error _ => ([], [])) =
+    (["self", "requests", "retry", "timeout", "metadata"],
+     ["self", "request", "parent", "tags", "retry", "timeout", "metadata"]) := by decide
 
 end GapicModel.Props.C05
